@@ -519,6 +519,14 @@ class Style:
         self.indent = 2 if self.plain else rng.choice([1, 2, 3, 4])
         self.end_style = "full" if self.plain else rng.choice(["full", "full", "joined", "noname", "bare", "spaced"])
         self.tight = False
+        self.idmix = (not self.plain) and rng.random() < 0.3
+
+    def ident(self, name):
+        """identifiers are case-insensitive: spell an occurrence in another case"""
+        if not self.idmix or self.rng.random() < 0.5:
+            return name
+        r = self.rng.random()
+        return name.upper() if r < 0.4 else (name.title() if r < 0.7 else "".join(c.upper() if self.rng.random() < 0.5 else c for c in name))
 
     def kw(self, w):
         if self.kwcase == "lower":
@@ -568,6 +576,7 @@ class Renderer:
                 t += p
             else:
                 name, ent, ctx = p
+                name = self.st.ident(name)
                 self.occs.append(Occ(self.cur, ln, len(t), name, ent, ctx))
                 t += name
         lines.append(t)
